@@ -28,7 +28,7 @@ PLACEMENTS = [(), ('E',), ('T',), ('E', 'p'), ('p', 'E'), ('T', 'p'), ('p', 'T')
               ('p', 'T', 'q'), ('E', 'T', 'p'), ('T', 'E', 'p'), ('p', 'E', 'T'), ('p', 'T', 'E'),
               ('p',), ('p', 'q')]
 ENTRIES = ['expect', 'expect_exact', 'expect_list', 'expect_loop', 'read2', 'readall', 'readline']
-PENDING = ['', 'xx', 'xabx', 'abxx']          # 'abxx' with W=2: occurrence only outside the window
+PENDING = ['', 'xx', 'xabx', 'abxx', 'abxxxxx']   # 'abxx' with W=2: occurrence only outside the window
 RECEIVED = [(), ('y',), ('a', 'b')]            # ('a','b') completes an occurrence across two reads
 ENDINGS = ['EOF', 'TIMEOUT', 'T0', 'TNEG', 'TNONE_EOF']
 WINDOWS = [None, 2]
@@ -49,7 +49,7 @@ def tasks(tier):
     return t
 
 
-def run_case(task, placement, pending, received, ending, W):
+def run_case(task, placement, pending, received, ending, W, setup='setter'):
     """Returns (obs dict, violation or None, flags list)."""
     CLOCK.reset()
     enc = None if task['mode'] == 'bytes' else task['mode']
@@ -76,8 +76,19 @@ def run_case(task, placement, pending, received, ending, W):
 
     sp = ScriptSpawn(answer, timeout=5, encoding=enc, searchwindowsize=None)
     fresh_before_none = sp.before is None
-    if pending:
+    if pending and setup == 'setter':
         sp.buffer = S(pending)
+    elif pending:
+        # the pending text is what an earlier exact-string call left behind when it timed out:
+        # its search buffer was trimmed to the look-back length, the untrimmed copy holds everything
+        prior = [pending.encode('ascii')]
+
+        def prior_answer(size, timeout):
+            return prior.pop(0) if prior else TIMEOUT
+        sp.answer = prior_answer
+        sp.expect_exact([S('~'), TIMEOUT], timeout=5)
+        sp.answer = answer
+        reads[0] = 0
     T = {'EOF': 5, 'TIMEOUT': 5, 'T0': 0, 'TNEG': -0.5, 'TNONE_EOF': None}[ending]
     pnames = {'p': 'ab', 'q': 'zz'}
     names = [x for x in placement]
@@ -261,23 +272,26 @@ def run_task(task):
                 continue
             if task['entry'] == 'readline':
                 received = tuple('\r\n' if c == 'b' else c for c in received)
-        elif placement == () :
+        elif placement == ():
             continue
-        obs, viol, flags = run_case(task, placement, pending, received, ending, W)
-        acc.execs += 1
-        acc.transitions += 1
-        acc.outcomes['%s/%s' % (obs['want'], obs['exc'] or 'ret')] += 1
-        for f in flags:
-            acc.flags[f] += 1
-        if obs['want'] != 'match' or 'pending_beats_marker' in flags:
-            acc.nontrivial += 1
-        seen.add((obs['want'], obs['exc'], repr(obs['after'])))
-        if viol:
-            key = 'A:%s:%s:%s' % (task['entry'], ending, viol[0])
-            acc.violation(key, viol[1], dict(task=task, placement=list(placement), pending=pending,
-                                             received=list(received), ending=ending, W=W))
+        for setup in ('setter', 'prior-timeout'):
+            if setup == 'prior-timeout' and not pending:
+                continue
+            obs, viol, flags = run_case(task, placement, pending, received, ending, W, setup)
+            acc.execs += 1
+            acc.transitions += 1
+            acc.outcomes['%s/%s' % (obs['want'], obs['exc'] or 'ret')] += 1
+            for f in flags:
+                acc.flags[f] += 1
+            if obs['want'] != 'match' or 'pending_beats_marker' in flags:
+                acc.nontrivial += 1
+            seen.add((obs['want'], obs['exc'], repr(obs['after'])))
+            if viol:
+                key = 'A:%s:%s:%s' % (task['entry'], ending, viol[0])
+                acc.violation(key, viol[1], dict(task=task, placement=list(placement), pending=pending,
+                                                 received=list(received), ending=ending, W=W, setup=setup))
     acc.states = len(seen)
-    acc.sample(dict(task=task, placement=['p', 'E', 'q'], pending='abxx', received=['y'], ending='EOF', W=2))
+    acc.sample(dict(task=task, placement=['p', 'E', 'q'], pending='abxx', received=['y'], ending='EOF', W=2, setup='prior-timeout'))
     return acc
 
 
@@ -289,7 +303,7 @@ def replay(spec):
         return c04b.replay(spec)
     install_clock()
     obs, viol, flags = run_case(spec['task'], tuple(spec['placement']), spec['pending'],
-                                tuple(spec['received']), spec['ending'], spec['W'])
+                                tuple(spec['received']), spec['ending'], spec['W'], spec.get('setup', 'setter'))
     out = {'observation': {k: repr(v) for k, v in obs.items()}, 'violation': None}
     if viol:
         out['violation'] = {'key': 'A:%s:%s:%s' % (spec['task']['entry'], spec['ending'], viol[0]), 'msg': viol[1]}
